@@ -343,7 +343,7 @@ def item_store_state(repo, out):
             missing = _raised(h.body[0], what)
             steps.append('listing')
         elif isinstance(s, ast.Assert):
-            if not src.startswith('assert response.ok,'):
+            if not (src == 'assert response.ok' or src.startswith('assert response.ok,')):    # message normalised away
                 raise TranslateError(what + ': unexpected assert')
             if 'listing' not in steps:
                 raise TranslateError(what + ': response used before the listing request')
